@@ -45,6 +45,9 @@ def cop(op):
     if k == 'force_chain':
         return (f'(OForceChain {cnat(op["chain"])} ' + clist([cstr(n) for n in op['names']]) +
                 f' {cbool(op["recompute"])} {cbool(op["delete"])})')
+    if k == 'force_multi':
+        return ('(OForceMulti ' + clist([cnat(c) for c in op['chains']]) + ' ' + clist([cstr(n) for n in op['names']]) +
+                f' {cbool(op["recompute"])} {cbool(op["delete"])})')
     if k == 'has_data':
         return f'(OHasData {cnat(op["chain"])} {cstr(op["name"])})'
     if k == 'flags':
@@ -80,13 +83,17 @@ def gen_history(rng, case, max_ops=14, mix='all'):
     ab = alt_base(rng, case)
     if ab is not None:
         bases.append(ab)
+        if mix == 'multi':
+            ab2 = alt_base(rng, case)
+            ab2['name'] = 'alt2'
+            bases.append(ab2)
     slugs = [pl.slug_of(c) for c in case['classes']]
     ops, nchains, failing = [], 0, False
 
     def build():
         nonlocal nchains
-        if len(bases) > 1 and rng.random() < 0.15:
-            bs = [bases[0], bases[1]]
+        if len(bases) > 1 and rng.random() < (0.8 if mix == 'multi' else 0.15):
+            bs = list(bases) if rng.random() < 0.6 else [bases[0], bases[1]]
             ops.append({'op': 'multi', 'bases': bs})
             nchains += len(bs)
         else:
@@ -97,6 +104,9 @@ def gen_history(rng, case, max_ops=14, mix='all'):
         r = rng.random()
         if nchains == 0 or r < 0.08:
             build()
+        elif mix == 'multi' and r < 0.22:
+            ops.append({'op': 'force_multi', 'multi': rng.randrange(4), 'picks': [rng.randrange(64) for _ in range(rng.choice([1, 2]))],
+                        'recompute': (not failing) and rng.random() < 0.4, 'delete': rng.random() < 0.4})
         elif r < 0.6 or (mix == 'plain' and r < 0.8):
             ops.append({'op': 'value', 'chain': rng.randrange(nchains), 'pick': rng.randrange(64)})
         elif r < 0.64 or (mix == 'plain' and r < 0.86):
@@ -231,6 +241,29 @@ def force_oracle(case, steps):
                     down.setdefault(u, set()).add(v)
                 chains.append(dict(tasks=o['tasks'], down=down, group=group))
             continue
+        if kind == 'force_multi':
+            all_ids, all_members = set(), []
+            for ci in op.get('chains', []):
+                ch = chains[ci] if ci < len(chains) else None
+                if ch is None or any(n not in ch['tasks'] for n in op['names']):
+                    break
+                todo = [ch['tasks'][n]['canon'] for n in op['names']]
+                seen = set()
+                while todo:
+                    c = todo.pop()
+                    if c not in seen:
+                        seen.add(c)
+                        todo += list(ch['down'].get(c, ()))
+                for c in seen:
+                    t = ch['tasks'][c]
+                    all_ids.add((ch['group'], f"{t['slug']}#{t['key']}"))
+            for i in all_ids:
+                forced[i] = True
+            if op['recompute'] and s['out'] != 'error':
+                pending -= all_ids
+            else:
+                pending |= all_ids
+            continue
         if kind == 'fail' or 'chain' not in op:
             continue
         ch = chains[op['chain']] if op['chain'] < len(chains) else None
@@ -263,9 +296,9 @@ def force_oracle(case, steps):
                 forced[i] = True
             if op['recompute']:
                 want = sorted(i[1] for i in ids)
-                if sorted(s['runs']) != want:
+                if any(s['runs'].count(w) != 1 for w in want) or len(set(s['runs'])) != len(s['runs']):
                     return (f'step {k}: force({op["names"]}, recompute=True) ran {sorted(s["runs"])}, the named tasks and '
-                            f'everything downstream are {want}: each must run exactly once')
+                            f'everything downstream are {want}: each must run exactly once (missing upstream may run too)')
                 pending -= ids
             else:
                 pending |= ids
